@@ -344,9 +344,33 @@ EdgeSlot* World::newEdge(int client, int forest)
     s->forest = forest;
     s->e = new dd_edge(forest >= 0 ? forests[forest].f : nullptr);
     s->born = uint64_t(cur_step);
-    s->id = next_edge_id++;
+    s->id = freshEdgeId();
     edges.push_back(s);
     return s;
+}
+
+int World::freshEdgeId()
+{
+    // named after the creating step's uid: stable when other steps are deleted
+    return (cur_uid + 1) * 8 + (made_in_step++ % 8);
+}
+
+size_t World::pick(const std::vector<size_t> &cands, uint32_t raw)
+{
+    size_t chosen = cands[raw % cands.size()];
+    const int k = pick_no++;
+    if (k < 6 && cur && cur->bind[k]) {
+        for (size_t c : cands) if (edges[c]->id == cur->bind[k]) { chosen = c; break; }
+    }
+    if (k < 6) cur_bind[k] = edges[chosen]->id;
+    return chosen;
+}
+
+size_t World::pickAny(uint32_t raw)
+{
+    std::vector<size_t> all(edges.size());
+    for (size_t i = 0; i < all.size(); i++) all[i] = i;
+    return pick(all, raw);
 }
 
 std::string World::fn(int fi) const
@@ -392,7 +416,14 @@ int World::pickForest(uint32_t raw,
         if (forests[i].alive && pred(forests[i])) c.push_back(int(i));
     }
     if (c.empty()) return -1;
-    return c[raw % c.size()];
+    int chosen = c[raw % c.size()];
+    World* self = const_cast<World*>(this);
+    const int k = self->fpick_no++;
+    if (k < 4 && cur && cur->fbind[k]) {
+        for (int x : c) if (x + 1 == cur->fbind[k]) { chosen = x; break; }
+    }
+    if (k < 4) self->cur_fbind[k] = chosen + 1;
+    return chosen;
 }
 
 void World::markErrored(int f)
